@@ -21,6 +21,10 @@ type C19Params struct {
 	Corrupt  string `json:"corrupt,omitempty"` // "", trunc, flip, seqmax, epochmax
 	Arg      int    `json:"arg,omitempty"`
 	InFlight bool   `json:"inflight,omitempty"` // a peer datagram is still in flight at export/crash
+	// EarlyState: the application also reads ConnectionState() (and the exporter) right after the
+	// handshake and again after half of the pre-export records, as one does for keying material;
+	// the state that is serialised later must still be the state at that later moment
+	EarlyState bool `json:"early_state,omitempty"`
 	Enum     string `json:"enum,omitempty"`
 }
 
@@ -116,6 +120,7 @@ func c19Gen(r *rand.Rand, tier string, idx int) any {
 	p.Side = []string{"c", "s"}[r.IntN(2)]
 	p.I, p.J = r.IntN(12), r.IntN(12)
 	p.InFlight = r.IntN(3) == 0
+	p.EarlyState = r.IntN(2) == 0
 	switch r.IntN(8) {
 	case 0, 1:
 		p.Corrupt, p.Arg = "trunc", r.IntN(1<<16)
@@ -176,7 +181,19 @@ func c19Run(rc *RunCtx, params any) {
 
 		return werr
 	}
+	peekState := func() {
+		if st0, ok0 := pair.ConnOf(p.Side).ConnectionState(); ok0 {
+			_, _ = st0.ExportKeyingMaterial("EXTRACTOR-verif", nil, 16)
+			s.Probe("state-read-before-export")
+		}
+	}
+	if p.EarlyState {
+		peekState()
+	}
 	for k := 0; k < p.I; k++ {
+		if p.EarlyState && k == p.I/2 && k > 0 {
+			peekState()
+		}
 		if err := write(p.Side, pair.ConnOf(p.Side), k); err != nil {
 			rc.Violate("harness-write", "pre-export write: %v", err)
 
